@@ -33,7 +33,10 @@ BIN = {ast.Add: [ast.Sub], ast.Sub: [ast.Add], ast.Mult: [ast.Div], ast.Div: [as
 def sites(fn):
   """yield (description, mutate(node_copy_root) -> None) for one function: operate by node index in ast.walk order"""
   nodes = list(ast.walk(fn))
+  in_assert = {id(x) for a in nodes if isinstance(a, (ast.Assert, ast.Raise)) for x in ast.walk(a)}
   for i, n in enumerate(nodes):
+    if id(n) in in_assert:
+      continue          # assertion / error-message code: a flipped assert fails for every input (the test suite sees it)
     if isinstance(n, ast.Compare) and len(n.ops) == 1 and type(n.ops[0]) in CMP:
       for new in CMP[type(n.ops[0])]:
         yield i, f'cmp {type(n.ops[0]).__name__}->{new.__name__}', ('cmp', new)
